@@ -380,6 +380,41 @@ func tables(byPath map[string]*packages.Package) {
 	}
 	T["primes"] = primes
 
+	// ---- name attribute leaves (util/names.go) and the prefix
+	var leaves []int64
+	if e := findVar(up, "nameAttributeLeaves"); e != nil {
+		if cl, ok := e.(*ast.CompositeLit); ok {
+			for _, el := range cl.Elts {
+				kv, ok := el.(*ast.KeyValueExpr)
+				if !ok {
+					errf("nameAttributeLeaves: odd element")
+					continue
+				}
+				v, ok := constInt(up, kv.Key)
+				if !ok {
+					errf("nameAttributeLeaves: non-constant key")
+					continue
+				}
+				leaves = append(leaves, v)
+			}
+		}
+	} else {
+		errf("nameAttributeLeaves not found")
+	}
+	sort.Slice(leaves, func(i, j int) bool { return leaves[i] < leaves[j] })
+	T["name_attribute_leaves"] = leaves
+	var napfx []int64
+	if e := findVar(up, "nameAttributePrefix"); e != nil {
+		if cl, ok := e.(*ast.CompositeLit); ok {
+			for _, el := range cl.Elts {
+				if v, ok := constInt(up, el); ok {
+					napfx = append(napfx, v)
+				}
+			}
+		}
+	}
+	T["name_attribute_prefix"] = napfx
+
 	// ---- OIDs in util
 	var oids []OIDVar
 	for _, f := range up.Syntax {
